@@ -12,7 +12,7 @@ import re
 from typing import Any, List
 
 _TABLE: List[Any] = []
-_TOK = re.compile(r"⟦(\d+)⟧")
+_TOK = re.compile(r"\(#(\d+)#\)")
 
 
 def reset() -> None:
@@ -24,9 +24,9 @@ def _tok(struct) -> str:
     that is a function of content, as with the real hashes).  Equality of symbolic leaves is a solver query."""
     for i, old in enumerate(_TABLE):
         if old[0] == struct[0] and _same(old, struct):
-            return "⟦%d⟧" % i
+            return "(#%d#)" % i
     _TABLE.append(struct)
-    return "⟦%d⟧" % (len(_TABLE) - 1)
+    return "(#%d#)" % (len(_TABLE) - 1)
 
 
 def _same(a, b) -> bool:
@@ -110,7 +110,7 @@ def expand(x):
     if isinstance(x, bytes):
         x = x.decode("utf-8")
     if type(x) is str:
-        if "⟦" not in x:
+        if "(#" not in x:
             return x
         parts = []
         pos = 0
